@@ -30,9 +30,11 @@ import (
 func main() {
 	hk.Main(&hk.Component{Name: "reqpaths", Rule: "clients {Streamable with GET SSE, legacy SSE} x all 2^5 combinations of {static headers (2 keys, 3 values), before-request function, " +
 		"custom HTTPReqHandler, custom path (client URL points at a wrong path, WithClientPath at the served one), custom http.Client} x call histories " +
-		"{initialize, initialize failing at its first request (503 / useless content type / refused by the before-request function) and repeated with another context value, tools/list, tools/list retried after a 503, notification, answer to a server-issued roots/list and to an unknown server request, session DELETE} " +
+		"{initialize, initialize failing at its first request (503 / useless content type / refused by the before-request function) and repeated with another context value, tools/list, tools/list retried after a 503, notification, answer to a server-issued roots/list and to an unknown server request, session DELETE; " +
+		"Streamable: roots/list under a slow roots provider while the server closes / resets the listening stream or the stream is replaced, stream reopened} " +
 		"(per combination: the shortest history emitting each request kind and the full history; edge histories; seeded random histories) against a recording reference server; plus, for every combination with a " +
-		"before-request function and every request kind, a run in which the function fails for that kind. " +
+		"before-request function and every request kind, a run in which the function fails for that kind; plus clients built from option LISTS in which " +
+		"WithHTTPHeaders (different keys, the same key twice, overlapping keys), WithHTTPBeforeRequest, WithHTTPReqHandler and WithClientPath occur several times (fixed lists and seeded random ones). " +
 		"non-trivial = a distinct (client, configuration, history) with at least one customisation configured and at least three observed requests, or a refused request",
 		Run: run})
 }
@@ -980,6 +982,33 @@ func run(c *hk.Ctx) {
 			}
 		}
 	}
+	// 2c. Streamable: the server ends (closes / resets) the listening stream while a slow roots provider is still working
+	//     on the request it has just sent; the stream is reopened; the stream is replaced under a slow provider
+	ended := [][]string{
+		{"initialize", "rootsSlowEnd"},
+		{"initialize", "rootsSlowReset"},
+		{"initialize", "rootsSlowReplace", "roots"},
+		{"initialize", "tools", "rootsSlowEnd", "roots", "tools", "reopen", "roots", "rootsSlowReplace", "rootsUnknown", "rootsSlowReset", "notify", "rootsSlowEnd", "terminate"},
+		{"initFail503", "initialize", "reopen", "roots", "rootsSlowEnd", "reopen", "rootsSlowReset"},
+	}
+	for _, h := range ended {
+		for _, cf := range cfgs {
+			runHistory(c, "streamable", cf, false, h, sid())
+		}
+	}
+	// 2d. the same option given several times (fixed lists, then seeded random ones), both clients
+	for _, ol := range fixedOptionLists() {
+		for _, cl := range clients {
+			runOptions(c, cl, ol, sid())
+		}
+	}
+	nOpt := 24
+	if c.Thorough() {
+		nOpt = 600
+	}
+	for i := 0; i < nOpt; i++ {
+		runOptions(c, clients[i%2], randomOptionList(c), sid())
+	}
 	// 3. a failing before-request function, for every kind of request
 	kinds := map[string][][2]string{
 		"streamable": {{"request", "handshake"}, {"notification", "handshake"}, {"request", ""}, {"notification", ""}, {"stream", ""}, {"answer", ""}, {"delete", ""}},
@@ -1000,8 +1029,8 @@ func run(c *hk.Ctx) {
 	if c.Thorough() {
 		nRand, maxLen = 4000, 20
 	}
-	alphabet := []string{"tools", "toolsRetry", "notify", "roots", "rootsUnknown", "terminate", "initialize"}
-	weights := []int{4, 2, 3, 3, 2, 1, 1}
+	alphabet := []string{"tools", "toolsRetry", "notify", "roots", "rootsUnknown", "terminate", "initialize", "rootsSlowEnd", "rootsSlowReset", "reopen", "rootsSlowReplace"}
+	weights := []int{4, 2, 3, 3, 2, 1, 1, 1, 1, 2, 1}
 	total := 0
 	for _, w := range weights {
 		total += w
@@ -1028,6 +1057,20 @@ func run(c *hk.Ctx) {
 					op := alphabet[k]
 					if op == "toolsRetry" && !retry {
 						op = "tools"
+					}
+					switch op {
+					case "rootsSlowEnd", "rootsSlowReset", "reopen", "rootsSlowReplace":
+						// Streamable only; a stream is not reopened after the session was terminated (without a session
+						// id the client sends no GET, and when the old stream then ends is not observable)
+						terminated := false
+						for _, e := range h {
+							if e == "terminate" {
+								terminated = true
+							}
+						}
+						if cl != "streamable" || (terminated && (op == "reopen" || op == "rootsSlowReplace")) {
+							op = "roots"
+						}
 					}
 					h = append(h, op)
 					break
